@@ -53,7 +53,10 @@ impl Scope for Bucket {
             let key = req.key.clone().unwrap_or_default();
             match self.data.get(&key) {
                 None => Resp::status(404),
-                Some(st) if st.status == 200 => Resp::object(st.bytes.clone(), st.last_modified_s.map(s3sim::rfc2822)),
+                // 2001: the object's 200 reply breaks off after a third of the body (the connection
+                // closes short of the announced Content-Length)
+                Some(st) if st.status == 2001 && st.bytes.len() >= 3 => Resp::cut_short(st.bytes[..st.bytes.len() / 3].to_vec(), st.bytes.len() - st.bytes.len() / 3),
+                Some(st) if st.status == 200 || st.status == 2001 => Resp::object(st.bytes.clone(), st.last_modified_s.map(s3sim::rfc2822)),
                 Some(st) if st.status == 301 => Resp { status: 301, headers: vec![], body: b"<Error><Code>PermanentRedirect</Code></Error>".to_vec() },
                 Some(st) => Resp::status(st.status),
             }
@@ -375,7 +378,7 @@ fn run_download(obs: &mut Obs, rng: &mut Rng, idx: u64, big: usize) {
     let sim = s3sim::global();
     let site = s3sim::fresh_site();
     let archive_mode = rng.chance(1, 2);
-    let status = *rng.pick(&[200u16, 200, 200, 200, 404, 403, 500, 301, 0]); // 0 = object absent
+    let status = *rng.pick(&[200u16, 200, 200, 200, 404, 403, 500, 301, 0, 2001]); // 0 = object absent, 2001 = body cut short
     // Last-Modified: absent, in the past, or (a sixth) later than this machine's clock - minutes
     // ahead as with skewed clocks, or years ahead
     let lm = match rng.below(12) {
@@ -441,6 +444,8 @@ fn run_download(obs: &mut Obs, rng: &mut Rng, idx: u64, big: usize) {
         };
         asked_chunk = Some(ChunkIdentifier::new(site.clone(), VolumeIndex::new(vol), name, carried));
     }
+    // (a body of fewer than three bytes cannot be cut after a third: served whole)
+    let status = if status == 2001 && bytes.len() < 3 { 200 } else { status };
     if status != 0 {
         data.insert(key.clone(), Stored { bytes: bytes.clone(), last_modified_s: lm, status });
     }
@@ -523,6 +528,8 @@ fn run_download(obs: &mut Obs, rng: &mut Rng, idx: u64, big: usize) {
                     obs.violation("download of a stored object fails", format!("{e:?}"), replay);
                 }
             }
+            (2001, Ok(_)) => obs.violation("a download cut short of its Content-Length is returned as a success", format!("object of {} bytes, a third delivered", bytes.len()), replay),
+            (2001, Err(_)) => obs.count("downloads_cut_short_reported_as_errors", 1),
             (_, Err(Error::AWS(AWSError::S3ObjectNotFoundError))) => obs.violation("non-404 status mapped to the not-found error", format!("status {}", status), replay),
             (_, Err(_)) => obs.count("other_status_is_error", 1),
             (s, Ok(_)) => obs.violation("non-200 status treated as success", format!("status {}", s), replay),
